@@ -360,7 +360,7 @@ def pick_now(rng, doc):
     return today + (h, mi)
 
 def gen_views(tier, rng):
-    nfiles = 1500 if tier == "quick" else 60000
+    nfiles = 1200 if tier == "quick" else 60000
     out = []
     for _ in range(nfiles):
         d = make_doc(rng, tier)
@@ -466,7 +466,7 @@ def pick_filter(rng, doc, today):
         flags = [tok("period", text=text)]
         lo, hi = period_bounds(pk, ymd)
     elif kind == "day":
-        which = rng.choice(["today", "yesterday", "tomorrow"])
+        which = rng.choice(["today", "yesterday", "tomorrow"] if ot < ordinal((9999, 12, 31)) else ["today", "yesterday"])   # PlusDays(1) needs a next day
         flags = [which]; lo = hi = ot + {"today": 0, "yesterday": -1, "tomorrow": 1}[which]
     elif kind == "this-last" and 2 <= today[0] <= 9998:
         pk = rng.choice(["week", "month", "quarter", "year"])
@@ -502,7 +502,7 @@ def select(doc, lo, hi, et):
     return Sub(out)
 
 def gen_filtered(tier, rng):
-    nfiles = 500 if tier == "quick" else 20000
+    nfiles = 400 if tier == "quick" else 20000
     out = []
     for _ in range(nfiles):
         d = make_doc(rng, tier)
